@@ -1,7 +1,7 @@
 PROP = dict(
     coq=["Rate/RateHarness.vo"],
     legs=[
-        dict(driver="bucket", binary="zrate", quick=1200, thorough=20000, shard=100,
+        dict(driver="bucket", binary="zrate", quick=900, thorough=20000, shard=60,
              monitors=["tokens_range", "rate_range", "window_bound", "penalty_honoured",
                        "five_xx_only_lowers", "success_only_raises_to_ideal"]),
         dict(driver="mgr", binary="zrate", quick=160, thorough=1500, shard=40,
